@@ -176,6 +176,18 @@ func (e *Exec) lookup(s *State, i *ssa.Lookup) Val {
 		n.Oks = append([]*T{tTrue}, n.Oks...)
 	}
 	s.Heap[m.Cell] = n
+	// the entry describes the map's INITIAL content (a written key is found above):
+	// the pre-state snapshot of the contract under verification learns it too, so
+	// that old(...) in a post speaks about the same unknown
+	if e.curCtx != nil && e.curCtx.pre != nil {
+		if pm, ok := e.curCtx.pre.Heap[m.Cell].(*MapAgg); ok && pm.Unknown && keyIndex(pm, key) < 0 {
+			p2 := &MapAgg{Keys: append(append([]Val{}, pm.Keys...), key), Vals: append(append([]Val{}, pm.Vals...), v), Oks: append(append([]*T{}, pm.Oks...), okv), Unknown: true, Tag: pm.Tag, Writes: pm.Writes}
+			for len(p2.Oks) < len(p2.Keys) {
+				p2.Oks = append([]*T{tTrue}, p2.Oks...)
+			}
+			e.curCtx.pre.Heap[m.Cell] = p2
+		}
+	}
 	return ret(v, okv)
 }
 
